@@ -201,6 +201,22 @@ def run(ctx):
     acfg = fw.write_cfg(ctx.path("MC_ChunksAlg_arb.cfg"), spec="ArbSpec", invariants=["ArbOK"],
                         constants={"W": 3, "MaxWords": 2, "MaxChunkBits": ctx.pick(8, 14)})
     ctx.mc("mc-chunks-arb", "C07", "ChunksAlg.tla", acfg, workers=4)
+    # byte encodings at byte / word level (two-bit bytes, two-byte words): every integer and every byte string of the scope
+    bcfg = fw.write_cfg(ctx.path("MC_BytesAlg.cfg"), invariants=["EncodeOK", "DecodeOK"],
+                        constants={"BB": 2, "WB": 2, "MaxBytes": ctx.pick(7, 9)})
+    ctx.mc("mc-bytes", "C07", "BytesAlg.tla", bcfg, workers=4)
+    if not ctx.quick:
+        bcfg3 = fw.write_cfg(ctx.path("MC_BytesAlg_3.cfg"), invariants=["EncodeOK", "DecodeOK"], constants={"BB": 2, "WB": 3, "MaxBytes": 8})
+        ctx.mc("mc-bytes-wb3", "C07", "BytesAlg.tla", bcfg3, workers=4)
+    # the printer for radices that are not powers of two (word / double word / medium / large with its power tower, the
+    # two-ended Debug form): deep towers over a tiny word, every radix over a six-bit word, the medium dispatch with CL = 4
+    allr = "{" + ", ".join(str(r) for r in range(3, 37) if r & (r - 1)) + "}"
+    for nm, w, cl, rs, mn, near in (("deep", 3, 2, "{3, 5, 6, 7}", ctx.pick(20000, 60000), 16000000),
+                                    ("radices", 6, 2, allr, ctx.pick(5000, 12000), 260000),
+                                    ("medium", 5, 4, "{3, 5, 6, 7, 10}", ctx.pick(20000, 60000), 2000000)):
+        ncfg = fw.write_cfg(ctx.path("MC_PrintNp2Alg_%s.cfg" % nm), invariants=["PrintOK", "DoubleEndOK"],
+                            constants={"W": w, "CL": cl, "Radices": rs, "MaxN": mn, "MaxNear": near})
+        ctx.mc("mc-printnp2-" + nm, "C07", "PrintNp2Alg.tla", ncfg, workers=3)
     # spec -> impl: the partition enumerated by TLC
     radices = ctx.pick([2, 3, 7, 8, 10, 16, 29, 36], list(range(2, 37)))
     ctx.scope.update({"radices": radices, "thorough": not ctx.quick, "exact_digit_limit": 2000,
